@@ -4,4 +4,4 @@
 Require Import Coq.extraction.Extraction Coq.extraction.ExtrOcamlBasic Coq.extraction.ExtrOcamlString.
 Require Import Grits.Base Grits.Tokens Grits.Scan Grits.Expand Grits.Dump.
 Extraction Language OCaml.
-Extraction "model.ml" tk_name scan_all parse_string dump_program.
+Extraction "model_front.ml" tk_name scan_all parse_string dump_program.
